@@ -59,6 +59,14 @@ CHECKS.update({
    ref="DESIGN.md §4 C01"),
 })
 
+CHECKS.update({
+ "C02": dict(
+   technique="property-based testing (proptest): read-write-decode round trip through an independent strict JVMS decoder, with an instruction alignment oracle for widened jumps; constructed branch-geometry generator around the 16-bit limits",
+   text="Generated-input exploration: every tree duke reads from generated classes (all encodings) and from geometry classes (jumps laid out at 32767+-8 / -32768+-8 whose spans grow when ldc becomes ldc_w, nested so that widening cascades, switches behind stretched regions, code sizes around 65535, locals around 255/256) is written by duke; the output must pass the harness's strict decoder and decode to the projection of the tree under an alignment that accepts only the inverted-if/goto_w trampoline; an Err is accepted only for methods that cannot fit. Holds on everything explored apart from the listed known finding (frames are not written).",
+   note="Trusted: harness encoder/decoder/projection/alignment. Trees come from reading valid files only (Label is not constructible outside duke). Err between the exact and the worst-case size is accepted.",
+   ref="DESIGN.md §4 C02"),
+})
+
 NOT_YET = {
 }
 
